@@ -37,8 +37,8 @@ def check(ctx):
         trace_files.append(tf)
     drive(drv, "replay", [])
     drive(drv, "dfs", ["-bound", "2" if quick else "3", "-maxruns", "40000" if quick else "400000"])
-    drive(drv, "random", ["-runs", "3000" if quick else "100000"])
-    drive(free, "free", ["-runs", "2000" if quick else "50000"])
+    drive(drv, "random", ["-runs", "3000" if quick else "30000"])
+    drive(free, "free", ["-runs", "2000" if quick else "12000"])
     recs, bad, vres = validate_traces(ctx, "parcache", "Trace_ParCache.tla", "Trace_ParCache.cfg", trace_files)
     violations = race_violations(rdir, "free runs of the unsubstituted par.Cache")
     for idx, invs in sorted(bad.items()):
